@@ -6,7 +6,7 @@ import random
 import numpy as np
 import pandas as pd
 
-from .. import common
+from .. import common, checklib
 
 LEVEL = "exploration"
 
@@ -224,7 +224,16 @@ def needed_refs(seq):
     return out
 
 
+def PROOFS():
+    from ..contracts import call_resolver_c, transforms_c, variable_c, config_c
+    T = "formulae.transforms."
+    return [("vf.contracts.call_resolver_c", ["formulae.terms.call_resolver.LazyCall.eval"]),
+            ("vf.contracts.transforms_c", [T + "Center.__call__", T + "Scale.__call__", T + "BSpline.__call__", T + "Polynomial.__init__"]),
+            ("vf.contracts.variable_c", variable_c.FUNCTIONS), ("vf.contracts.config_c", config_c.FUNCTIONS)]
+
+
 def run(report, findings):
+    checklib.run_proofs(report, "C07", PROOFS())
     rnd = random.Random(common.seed())
     nseq = 120 if report.tier == "quick" else 1500
     seqs = list(TARGETED)
